@@ -212,30 +212,34 @@ func flip(op token.Token) token.Token {
 // applyCond refines r (the value of v) knowing that cond evaluated to `branch` in block d, the
 // edge leading to block c, for a use in block b.
 func (e *Engine) applyCond(s *fstate, r AV, v ssa.Value, cond ssa.Value, branch bool, d, c, b *ssa.BasicBlock, depth int) AV {
+	// a validity helper: if !validSelectors(td, ta) { return err } / if err := check(w, h); err != nil { return err }
+	if call, ridx, wantOnTrue, ok := outcomeOfCond(cond); ok {
+		sc := call.Call.StaticCallee()
+		if sc == nil || call.Call.IsInvoke() || len(call.Call.Args) != len(sc.Params) || !isIntType(v.Type()) {
+			return r
+		}
+		cs := e.outcomeConstraints(sc, ridx, wantOnTrue == branch)
+		if cs == nil {
+			return r
+		}
+		for i, a := range call.Call.Args {
+			if i < len(cs) && isIntType(a.Type()) && !cs[i].IsBottom() && e.sameValue(s, v, a, c, b) {
+				m := meetAV(r, cs[i])
+				if m.IsBottom() {
+					continue
+				}
+				m.Taint = r.Taint
+				m.Exact = false
+				r = m
+			}
+		}
+		return r
+	}
 	switch x := cond.(type) {
 	case *ssa.UnOp:
 		if x.Op == token.NOT {
 			return e.applyCond(s, r, v, x.X, !branch, d, c, b, depth)
 		}
-	case *ssa.Call:
-		// a validity helper: if !validSelectors(td, ta) { return err }
-		sc := x.Call.StaticCallee()
-		if sc == nil || x.Call.IsInvoke() || len(x.Call.Args) != len(sc.Params) {
-			return r
-		}
-		cs := e.boolConstraints(sc, branch)
-		if cs == nil {
-			return r
-		}
-		for i, a := range x.Call.Args {
-			if i < len(cs) && isIntType(a.Type()) && e.sameValue(s, v, a, c, b) && !cs[i].IsBottom() {
-				m := meetAV(r, cs[i])
-				m.Taint = r.Taint
-				m.Exact = false
-				return m
-			}
-		}
-		return r
 	case *ssa.BinOp:
 		op := x.Op
 		switch op {
@@ -557,39 +561,59 @@ func (e *Engine) inline(s *fstate, c *ssa.Call, callee *ssa.Function, b *ssa.Bas
 	return r, true
 }
 
-type boolKey struct {
+type outcomeKey struct {
 	fn   *ssa.Function
+	ridx int
 	want bool
 }
 
-var boolMemo = map[boolKey][]AV{}
+func isBoolType(t types.Type) bool {
+	bt, ok := t.Underlying().(*types.Basic)
+	return ok && bt.Kind() == types.Bool
+}
 
-// boolConstraints: for a small loop-free function returning a single bool, the ranges its integer
-// parameters must lie in whenever it returns `want` (nil if the function is not of that shape).
-func (e *Engine) boolConstraints(fn *ssa.Function, want bool) []AV {
-	k := boolKey{fn, want}
-	if r, ok := boolMemo[k]; ok {
+func isErrorType(t types.Type) bool { return t.String() == "error" }
+
+// outcomeConstraints: the ranges the integer parameters of fn must lie in whenever its result
+// ridx is `want` — for a bool result its value, for an error result want=true means nil. The
+// parameters are SSA values, so every comparison on an edge dominating such a return is a fact about
+// the arguments. nil if the result is neither bool nor error or fn has no body.
+func (e *Engine) outcomeConstraints(fn *ssa.Function, ridx int, want bool) []AV {
+	k := outcomeKey{fn, ridx, want}
+	if r, ok := e.outcomeMemo[k]; ok {
 		return r
 	}
-	boolMemo[k] = nil
+	if e.outcomeMemo == nil {
+		e.outcomeMemo = map[outcomeKey][]AV{}
+	}
+	e.outcomeMemo[k] = nil
 	res := fn.Signature.Results()
-	if res.Len() != 1 || !e.inlineable(fn) {
+	if fn.Blocks == nil || len(fn.Blocks) > 120 || ridx < 0 || ridx >= res.Len() || len(fn.FreeVars) > 0 {
 		return nil
 	}
-	if bt, ok := res.At(0).Type().Underlying().(*types.Basic); !ok || bt.Kind() != types.Bool {
+	rt := res.At(ridx).Type()
+	isErr := isErrorType(rt)
+	if !isErr && !isBoolType(rt) {
 		return nil
 	}
-	tmp := &fstate{fn: fn, vals: map[ssa.Value]AV{}, visits: map[ssa.Value]int{}, atMemo: map[atKey]AV{}, params: make([]AV, len(fn.Params)), kills: map[fieldKey]bool{}, seeded: true}
+	anyInt := false
+	for _, p := range fn.Params {
+		if isIntType(p.Type()) {
+			anyInt = true
+		}
+	}
+	if !anyInt {
+		return nil
+	}
+	tmp := &fstate{fn: fn, vals: map[ssa.Value]AV{}, visits: map[ssa.Value]int{}, atMemo: map[atKey]AV{}, params: make([]AV, len(fn.Params)), kills: map[fieldKey]bool{}, seeded: true, thr: thresholdsOf(fn)}
+	if real := e.fs[fn]; real != nil {
+		tmp.kills = real.kills
+		tmp.stores = real.stores
+	}
 	for i, p := range fn.Params {
 		tmp.params[i] = e.top(p.Type())
 	}
-	for _, blk := range fn.DomPreorder() {
-		for _, ins := range blk.Instrs {
-			if v, ok := ins.(ssa.Value); ok && isIntType(v.Type()) {
-				tmp.vals[v] = e.transfer(tmp, v, blk)
-			}
-		}
-	}
+	e.iterate(tmp)
 	out := make([]AV, len(fn.Params))
 	for i := range out {
 		out[i] = Bottom()
@@ -597,9 +621,6 @@ func (e *Engine) boolConstraints(fn *ssa.Function, want bool) []AV {
 	// contribute: on reaching block `at` (optionally along edge from->at) with result value rv
 	var contribute func(rv ssa.Value, at *ssa.BasicBlock, edgeFrom *ssa.BasicBlock, depth int)
 	contribute = func(rv ssa.Value, at *ssa.BasicBlock, edgeFrom *ssa.BasicBlock, depth int) {
-		if depth > 6 {
-			return
-		}
 		paramAt := func(i int) AV {
 			p := fn.Params[i]
 			if edgeFrom != nil {
@@ -607,23 +628,51 @@ func (e *Engine) boolConstraints(fn *ssa.Function, want bool) []AV {
 			}
 			return e.at(tmp, p, at, 1)
 		}
-		switch x := rv.(type) {
-		case *ssa.Const:
-			if (x.Value != nil && x.Value.String() == "true") != want {
-				return
-			}
+		all := func() {
 			for i, p := range fn.Params {
 				if isIntType(p.Type()) {
 					out[i] = Join(out[i], paramAt(i))
 				}
 			}
+		}
+		if depth > 6 {
+			all()
+			return
+		}
+		if isErr {
+			switch x := rv.(type) {
+			case *ssa.Const:
+				if x.IsNil() == want {
+					all()
+				}
+				return
+			case *ssa.Phi:
+				for ei, ed := range x.Edges {
+					contribute(ed, x.Block(), x.Block().Preds[ei], depth+1)
+				}
+				return
+			}
+			if nonNilError(rv, at, 0) {
+				if !want {
+					all()
+				}
+				return
+			}
+			all() // unknown: may be either
+			return
+		}
+		switch x := rv.(type) {
+		case *ssa.Const:
+			if (x.Value != nil && x.Value.String() == "true") != want {
+				return
+			}
+			all()
 		case *ssa.Phi:
 			for ei, ed := range x.Edges {
 				contribute(ed, x.Block(), x.Block().Preds[ei], depth+1)
 			}
 		case *ssa.UnOp:
 			if x.Op == token.NOT {
-				// !cond == want  <=>  cond == !want : handled by flipping through a nested evaluation
 				for i, p := range fn.Params {
 					if isIntType(p.Type()) {
 						v := paramAt(i)
@@ -633,35 +682,73 @@ func (e *Engine) boolConstraints(fn *ssa.Function, want bool) []AV {
 				}
 				return
 			}
-			for i, p := range fn.Params {
-				if isIntType(p.Type()) {
-					out[i] = Join(out[i], paramAt(i))
-				}
-			}
-		case *ssa.BinOp:
+			all()
+		case *ssa.BinOp, *ssa.Call, *ssa.Extract:
 			for i, p := range fn.Params {
 				if isIntType(p.Type()) {
 					v := paramAt(i)
-					v = e.applyCond(tmp, v, p, x, want, x.Block(), at, at, 1)
+					v = e.applyCond(tmp, v, p, x, want, x.(ssa.Instruction).Block(), at, at, 1)
 					out[i] = Join(out[i], v)
 				}
 			}
 		default:
-			for i, p := range fn.Params {
-				if isIntType(p.Type()) {
-					out[i] = Join(out[i], paramAt(i))
-				}
-			}
+			all()
 		}
 	}
 	for _, blk := range fn.Blocks {
 		if len(blk.Instrs) == 0 {
 			continue
 		}
-		if ret, ok := blk.Instrs[len(blk.Instrs)-1].(*ssa.Return); ok && len(ret.Results) == 1 {
-			contribute(ret.Results[0], blk, nil, 0)
+		if ret, ok := blk.Instrs[len(blk.Instrs)-1].(*ssa.Return); ok && ridx < len(ret.Results) {
+			contribute(ret.Results[ridx], blk, nil, 0)
 		}
 	}
-	boolMemo[k] = out
+	e.outcomeMemo[k] = out
 	return out
+}
+
+// outcomeOfCond: is cond a test of the outcome of a static call — a bool result used directly,
+// or an error result compared with nil? Returns the call, the result index and the outcome that
+// holds when cond is true.
+// OutcomeOfCond is outcomeOfCond for the rules outside the engine.
+func OutcomeOfCond(cond ssa.Value) (*ssa.Call, int, bool, bool) { return outcomeOfCond(cond) }
+
+func outcomeOfCond(cond ssa.Value) (call *ssa.Call, ridx int, wantOnTrue bool, ok bool) {
+	resolve := func(v ssa.Value) (*ssa.Call, int, bool) {
+		switch y := v.(type) {
+		case *ssa.Call:
+			if _, isTuple := y.Type().(*types.Tuple); isTuple {
+				return nil, 0, false
+			}
+			return y, 0, true
+		case *ssa.Extract:
+			if c, ok := y.Tuple.(*ssa.Call); ok {
+				return c, y.Index, true
+			}
+		}
+		return nil, 0, false
+	}
+	switch x := cond.(type) {
+	case *ssa.Call, *ssa.Extract:
+		if !isBoolType(x.Type()) {
+			return nil, 0, false, false
+		}
+		c, i, ok := resolve(x)
+		return c, i, true, ok
+	case *ssa.BinOp:
+		if x.Op != token.EQL && x.Op != token.NEQ {
+			return nil, 0, false, false
+		}
+		v, other := x.X, x.Y
+		if k, isK := v.(*ssa.Const); isK && k.IsNil() {
+			v, other = other, v
+		}
+		k, isK := other.(*ssa.Const)
+		if !isK || !k.IsNil() || !isErrorType(v.Type()) {
+			return nil, 0, false, false
+		}
+		c, i, ok := resolve(v)
+		return c, i, x.Op == token.EQL, ok
+	}
+	return nil, 0, false, false
 }
